@@ -1,4 +1,6 @@
 import Hive.Proofs.StreamInPlace
+import Hive.Gen.C02_Facts
+import Hive.Spec.DeserFacts
 /-!
 # C01 (stream part) — each stream Write*/Read* helper pair round-trips through any io.Reader
 
@@ -166,6 +168,36 @@ example : (runW [.coll .u16 (.bws .u8) [[1, 2], [], [3]], .ows .u64 [9, 9], .num
   constructor
   · rw [C01_stream_write_layout_fresh]; decide
   · intro op hop; simp at hop; rcases hop with h | h | h <;> subst h <;> simp [WOp.wf]
+
+/-! ### regenerated facts: the bodies of the writers, `ByteBuffer.Write` / `Seek` and the seek helpers
+
+`Hive/Gen/C02_Facts.lean` is rewritten from the Go source on every run (harness/c02/facts); the normalised bodies
+must equal the copies the model was transcribed from (`Hive/Spec/DeserFacts.lean`). -/
+section Facts
+open Hive.Gen.C02Facts
+
+theorem C01_facts_body_writeFixedSize : body_writeFixedSize = Hive.Spec.DeserFacts.body_writeFixedSize := rfl
+
+theorem C01_facts_body_WriteCollection : body_WriteCollection = Hive.Spec.DeserFacts.body_WriteCollection := rfl
+
+theorem C01_facts_body_WriteBytesWithSize : body_WriteBytesWithSize = Hive.Spec.DeserFacts.body_WriteBytesWithSize := rfl
+
+theorem C01_facts_body_ByteBuffer_Write : body_ByteBuffer_Write = Hive.Spec.DeserFacts.body_ByteBuffer_Write := rfl
+
+theorem C01_facts_body_ByteBuffer_Seek : body_ByteBuffer_Seek = Hive.Spec.DeserFacts.body_ByteBuffer_Seek := rfl
+
+theorem C01_facts_body_Offset : body_Offset = Hive.Spec.DeserFacts.body_Offset := rfl
+
+theorem C01_facts_body_Skip : body_Skip = Hive.Spec.DeserFacts.body_Skip := rfl
+
+theorem C01_facts_body_GoTo : body_GoTo = Hive.Spec.DeserFacts.body_GoTo := rfl
+
+/-- the prefix bounds of `writeFixedSize` are the bounds of the model's `fitsLP` (the uint64 case has none: an `int` always fits) -/
+theorem C01_facts_fitsLP : fitsLP .u8 255 = true ∧ fitsLP .u8 256 = false ∧ fitsLP .u16 65535 = true ∧ fitsLP .u16 65536 = false ∧
+    fitsLP .u32 4294967295 = true ∧ fitsLP .u32 4294967296 = false ∧ fitsLP .u64 maxInt = true ∧
+    ["if l>math.MaxUint8 {", "if l>math.MaxUint16 {", "if l>math.MaxUint32 {"].all (fun t => body_writeFixedSize.contains t) = true := by
+  decide
+end Facts
 
 /-- The unrepaired `ReadBytes` (one `Read`, short read = error) failed as soon as the reader split
 the bytes: regression statement about the model of the old code. -/
